@@ -349,6 +349,7 @@ def execute(prop, plan, tier, seed, expinfo, t_start, exp=None):
     trusted_scan = {}
     checker_cmds = []
     vac = []
+    stuck_fns = set()
 
     # ---- Verus units (in parallel, each multi-threaded)
     nun = max(1, len(plan.vunits))
@@ -373,6 +374,16 @@ def execute(prop, plan, tier, seed, expinfo, t_start, exp=None):
         if hard or not r['have_json'] or (r['errors'] == 0 and not r['success'] and not r['undecided']) or r['vir_error']:
             for (k, msg, ln) in r['undecided']:
                 undecided.append('%s: %s: %s' % (vu['name'], k, msg[:600]))
+                # the real function whose extracted text Verus could not type-check / does not support: a candidate for the replay
+                if k == 'unsupported-or-type-error':
+                    tl = vu['text'].split('\n')
+                    lns = [int(x) for x in re.findall(r'-->\s+\S+?:(\d+):\d+', msg)] or ([ln] if ln else [])
+                    for l0 in lns:
+                        for q in range(min(l0, len(tl)) - 1, -1, -1):
+                            t = re.search(r'// @fn (\S.*)$', tl[q])
+                            if t:
+                                stuck_fns.add(t.group(1).strip())
+                                break
             if not r['undecided']:
                 undecided.append('%s: verus did not complete: %s' % (vu['name'], r['stderr'][-1500:]))
             continue
@@ -529,6 +540,31 @@ def execute(prop, plan, tier, seed, expinfo, t_start, exp=None):
     # ---- replay of the refuted obligations on the real code (before the evidence is written: a refutation that the replay
     # contradicts is reported as undecided, see DESIGN.md 4)
     outcome, rp = None, None
+    if not reported and stuck_fns and exp is not None and not os.environ.get('VEKVERIF_NO_DIFF_REPLAY'):
+        # Verus could not even type-check the extracted text of these functions (a callee outside the unit, an unsupported construct):
+        # no deductive verdict. The replay on the real code can still decide the one thing it is sound for: a concrete input on which the
+        # contract's requires hold and one of its ensures clauses is false in the working tree (and true at HEAD) is a violation.
+        try:
+            import replay_diff
+            anchors = {}
+            for vu in plan.vunits:
+                anchors.update(vu.get('anchors', {}))
+            pseudo = [dict(tag=t + '/extracted-text-not-verifiable', backend='verus', kind='undecided', fn=t) for t in sorted(stuck_fns) if t in anchors]
+            if pseudo:
+                dres = replay_diff.attempt(prop, pseudo, anchors, exp, REPO, workdir)
+                hits = [d for d in dres if d.get('found') and d.get('clause') is not None]
+                for d in hits:
+                    reported.append(dict(tag='%s/ens.%s' % (d.get('fn'), d.get('clause_index')), backend='replay', kind='clause-false-on-real-code', fn=d.get('fn'),
+                                         unit='-', verifier_output='Verus could not type-check the extracted function (see undecided); the contract clause `%s` '
+                                         'evaluates to false on the real code for input %s (result %s; at HEAD: %s)'
+                                         % (d.get('clause', '')[:300], d.get('input'), d.get('result_now'), d.get('result_at_HEAD')), input=d.get('input')))
+                stuck_replay = dres
+            else:
+                stuck_replay = []
+        except Exception as e:
+            stuck_replay = [dict(found=False, reason='replay failed: %r' % e)]
+    else:
+        stuck_replay = None
     all_reported = list(reported)
     if reported:
         rdir = os.path.join(VERIF, 'work', 'replays')
@@ -536,6 +572,10 @@ def execute(prop, plan, tier, seed, expinfo, t_start, exp=None):
         rp = os.path.join(rdir, '%s_%d.json' % (prop, int(time.time())))
         import replay
         outcome = replay.attempt(prop, reported, workdir, seed)
+        if stuck_replay:
+            outcome['details'] += stuck_replay
+            if any(d.get('found') for d in stuck_replay):
+                outcome['failing_input_found'] = True
         if exp is not None and not os.environ.get('VEKVERIF_NO_DIFF_REPLAY') and any(v.get('backend') == 'verus' for v in reported):
             try:
                 import replay_diff
